@@ -462,6 +462,9 @@ impl Iterator for QueryState<'_> {
             let exception_term =
                 Term::from_heapcell(machine, machine.machine_st.heap[h], &mut var_names.clone());
 
+            // the exception has been reported: a later query must not see it again
+            machine.machine_st.ball.reset();
+
             if let Term::Compound(functor, args) = &exception_term {
                 if functor == "error" && args.len() == 2 {
                     // We have an error
